@@ -1617,9 +1617,10 @@ Proof.
                  Ghost m' (S ++ sub_of e) (C ++ cb_of e)).
   { intros E1 E2 E3 E4. rewrite E3, E4, !app_nil_r. destruct G. constructor; rewrite ?E1, ?E2; auto. }
   destruct e; simpl in H; try (inversion H; subst; now apply Same).
-  - simpl. destruct (ret =? 0); [|inversion H; subst; now apply Same].
+  - destruct (ret =? 0) eqn:Er.
+    2:{ inversion H; subst. apply Same; auto. simpl. now rewrite Er. }
     destruct (m_next m <=? id)%nat eqn:En; [|discriminate]. apply Nat.leb_le in En.
-    inversion H; subst. clear H. destruct G. rewrite app_nil_r.
+    inversion H; subst. clear H. destruct G. simpl. rewrite Er, app_nil_r.
     assert (Hfresh : ~ In id S).
     { intros Hin. rewrite Forall_forall in g_next0. apply g_next0 in Hin. lia. }
     constructor; simpl; auto.
@@ -1641,11 +1642,11 @@ Proof.
     destruct G. simpl. rewrite app_nil_r. constructor; simpl; auto.
     + apply NoDup_snoc; auto.
     + intros i. rewrite in_drop_owed, in_app_iff, g_union0. simpl.
-      destruct (Nat.eq_dec i id); [subst; tauto|tauto].
+      destruct (Nat.eq_dec i id); [subst; intuition auto|intuition congruence].
     + intros i Hi. apply in_drop_owed in Hi. destruct Hi as (Hi & Hne).
       rewrite in_app_iff. simpl. intros [Hc|[Hc|[]]]; [now apply (g_disj0 i)|congruence].
   - destruct (_ && _); inversion H; subst. now apply Same.
-  - destruct (m_owed m); inversion H; subst. now apply Same.
+  - destruct (m_owed m) eqn:Eo; inversion H; subst. apply Same; auto.
 Qed.
 
 Lemma ghost_run : forall tr m m' S C,
@@ -1655,7 +1656,7 @@ Proof.
   - inversion H; subst. unfold subs, cbs. simpl. now rewrite !app_nil_r.
   - destruct (mon_step m e) as [m1|] eqn:E; [|discriminate].
     unfold subs, cbs. simpl. fold (subs tr). fold (cbs tr). rewrite !app_assoc.
-    apply (IH m1); auto. now apply ghost_step.
+    apply (IH m1); auto. eapply ghost_step; eauto.
 Qed.
 
 Lemma ghost0 : Ghost mon0 [] [].
@@ -1677,4 +1678,175 @@ Proof.
   - intros post' Ep. subst post. simpl in H.
     destruct (m_owed m1) eqn:Eo; [|discriminate].
     intros i Hi. apply g_union0 in Hi. simpl in Hi. tauto.
+Qed.
+
+(* ---- status ---- *)
+Record Track (m : mon) (pre : list event) : Prop := mkTrack {
+  t_hand : m_hand m = rev (handed pre);
+  t_errs : forall x, In x (m_errs m) -> In x (errs_of pre);
+  t_closed : m_closed m = true -> In EClose pre;
+  t_owed : forall id sq ln, In (id, sq, ln) (m_owed m) -> In (ESend id sq ln 0) pre
+}.
+
+Lemma handed_snoc acc e : handed (acc ++ [e]) = handed acc ++ handed_by e.
+Proof. rewrite handed_app. unfold handed at 2. simpl. now rewrite app_nil_r. Qed.
+
+Lemma errs_of_snoc acc e : errs_of (acc ++ [e]) = errs_of acc ++ err_of e.
+Proof. rewrite errs_of_app. unfold errs_of at 2. simpl. now rewrite app_nil_r. Qed.
+
+Lemma track_step m acc e m' :
+  Track m acc -> mon_step m e = Some m' -> Track m' (acc ++ [e]).
+Proof.
+  intros T H.
+  assert (Hh : m_hand m' = rev (handed (acc ++ [e]))).
+  { pose proof (mon_step_hand _ _ _ H) as Hh. apply hand_all_inv in Hh. destruct Hh as (Hh & _).
+    rewrite Hh, (t_hand _ _ T), handed_snoc, rev_app_distr. reflexivity. }
+  assert (Same : m_errs m' = m_errs m -> m_closed m' = m_closed m ->
+                 (forall k, In k (m_owed m') -> In k (m_owed m)) -> Track m' (acc ++ [e])).
+  { intros E1 E2 E3. destruct T. constructor; auto.
+    - rewrite E1. intros x Hx. rewrite errs_of_app. apply in_or_app. left. auto.
+    - rewrite E2. intros Hc. apply in_or_app. left. auto.
+    - intros id sq ln Hin. apply in_or_app. left. apply t_owed0. now apply E3. }
+  destruct e; simpl in H; try (inversion H; subst; now apply Same).
+  - destruct (ret =? 0) eqn:Er; [|inversion H; subst; now apply Same].
+    destruct (m_next m <=? id)%nat; [|discriminate]. inversion H; subst. clear H.
+    apply Z.eqb_eq in Er. subst ret. destruct T. constructor; auto; simpl.
+    + intros x Hx. rewrite errs_of_app. apply in_or_app. left. auto.
+    + intros Hc. apply in_or_app. left. auto.
+    + intros i sq ln Hin. apply in_app_or in Hin. apply in_or_app.
+      destruct Hin as [Hin|[Hin|[]]]; [left; auto|right]. inversion Hin; subst. now left.
+  - unfold mon_sys in H. destruct a as [r|p]; simpl in H.
+    + destruct (newer (m_hand m) seq); inversion H; subst. now apply Same.
+    + destruct (real_err (Z.pos p)) eqn:Er; inversion H; subst; [|now apply Same].
+      destruct T. constructor; auto; simpl.
+      * intros x [Hx|Hx]; rewrite errs_of_snoc; apply in_or_app; [right|left; auto].
+        subst x. simpl. rewrite Er. now left.
+      * intros Hc. apply in_or_app. left. auto.
+      * intros i sq ln Hin. apply in_or_app. left. auto.
+  - unfold mon_sys in H. destruct a as [r|p].
+    + destruct (hand_all (m_hand m) (firstn (N.to_nat r) seqs)); inversion H; subst. now apply Same.
+    + destruct (real_err (Z.pos p)) eqn:Er; [destruct seqs as [|x0 seqs]|]; inversion H; subst;
+        try (now apply Same).
+      destruct T. constructor; auto; simpl.
+      * intros x [Hx|Hx]; rewrite errs_of_snoc; apply in_or_app; [right|left; auto].
+        subst x. simpl. rewrite Er. now left.
+      * intros Hc. apply in_or_app. left. auto.
+      * intros i sq ln Hin. apply in_or_app. left. auto.
+  - destruct (find_owed id (m_owed m)) as [[sq ln]|]; [|discriminate].
+    destruct (cb_ok m sq status); inversion H; subst. apply Same; auto.
+    simpl. intros k Hk. unfold drop_owed in Hk. apply filter_In in Hk. tauto.
+  - destruct (_ && _); inversion H; subst. now apply Same.
+  - inversion H; subst. destruct T. constructor; auto; simpl.
+    + intros x Hx. rewrite errs_of_app. apply in_or_app. left. auto.
+    + intros _. apply in_or_app. right. now left.
+    + intros i sq ln Hin. apply in_or_app. left. auto.
+  - destruct (m_owed m) eqn:Eo; inversion H; subst. apply Same; auto.
+    intros k Hk. now rewrite Eo in Hk.
+Qed.
+
+Lemma track_run : forall tr m m' acc,
+  Track m acc -> mon_run m tr = Some m' -> Track m' (acc ++ tr).
+Proof.
+  induction tr as [|e tr IH]; intros m m' acc T H; simpl in H.
+  - inversion H; subst. now rewrite app_nil_r.
+  - destruct (mon_step m e) as [m1|] eqn:E; [|discriminate].
+    replace (acc ++ e :: tr) with ((acc ++ [e]) ++ tr) by (now rewrite <- app_assoc).
+    apply (IH m1); auto. eapply track_step; eauto.
+Qed.
+
+Lemma track0 : Track mon0 [].
+Proof. constructor; simpl; auto; try tauto; discriminate. Qed.
+
+Lemma mem_err_inv x st l : mem_err x st l = true -> In (x, st) l.
+Proof.
+  unfold mem_err. rewrite existsb_exists. intros ([a b] & Hin & Hp). simpl in Hp.
+  apply andb_prop in Hp. destruct Hp as (H1 & H2).
+  apply Nat.eqb_eq in H1. apply Z.eqb_eq in H2. now subst.
+Qed.
+
+(* C10_status *)
+Theorem accepted_status tr m :
+  mon_run mon0 tr = Some m ->
+  forall pre post id st, tr = pre ++ ECb id st :: post ->
+  exists sq ln, In (ESend id sq ln 0) pre /\
+    ((In sq (handed pre) /\ st = 0) \/
+     (~ In sq (handed pre) /\ st <> 0 /\
+      (In (sq, st) (errs_of pre) \/ (st = UV_ECANCELED /\ In EClose pre)))).
+Proof.
+  intros H pre post id st E. subst tr. rewrite mon_run_app in H.
+  destruct (mon_run mon0 pre) as [m1|] eqn:E1; [|discriminate].
+  pose proof (track_run pre mon0 m1 [] track0 E1) as T. simpl in T. destruct T.
+  simpl in H. destruct (find_owed id (m_owed m1)) as [[sq ln]|] eqn:Ef; [|discriminate].
+  destruct (cb_ok m1 sq st) eqn:Ec; [|discriminate].
+  exists sq, ln. split; [apply t_owed0; now apply find_owed_in|].
+  unfold cb_ok in Ec. destruct (mem_nat sq (m_hand m1)) eqn:Em.
+  - left. apply mem_nat_in in Em. rewrite t_hand0, <- in_rev in Em.
+    split; auto. now apply Z.eqb_eq.
+  - right. split.
+    + intros Hin. rewrite in_rev, <- t_hand0 in Hin. apply mem_nat_in in Hin. congruence.
+    + apply andb_prop in Ec. destruct Ec as (Ec1 & Ec2).
+      apply negb_true_iff, Z.eqb_neq in Ec1. split; auto.
+      apply orb_prop in Ec2. destruct Ec2 as [Ec2|Ec2].
+      * left. apply t_errs0. now apply mem_err_inv.
+      * right. apply andb_prop in Ec2. destruct Ec2 as (Ec2 & Ec3).
+        apply Z.eqb_eq in Ec2. auto.
+Qed.
+
+(* ---- getters ---- *)
+(* the requests owed a callback after a trace: accepted by uv_udp_send, callback not run *)
+Fixpoint owed_after (l : list okey) (tr : list event) : list okey :=
+  match tr with
+  | [] => l
+  | ESend id seq len ret :: t =>
+      if ret =? 0 then owed_after (l ++ [(id, seq, len)]) t else owed_after l t
+  | ECb id _ :: t => owed_after (drop_owed id l) t
+  | _ :: t => owed_after l t
+  end.
+
+Lemma mon_run_owed : forall tr m m',
+  mon_run m tr = Some m' -> m_owed m' = owed_after (m_owed m) tr.
+Proof.
+  induction tr as [|e tr IH]; intros m m' H; simpl in H.
+  - inversion H; reflexivity.
+  - destruct (mon_step m e) as [m1|] eqn:E; [|discriminate].
+    rewrite (IH _ _ H). clear H IH.
+    destruct e; simpl in *; try (inversion E; subst; reflexivity).
+    + destruct (ret =? 0); [destruct (m_next m <=? id)%nat|]; inversion E; subst; reflexivity.
+    + unfold mon_sys in E. destruct a as [r|p]; simpl in E.
+      * destruct (newer (m_hand m) seq); inversion E; reflexivity.
+      * destruct (real_err (Z.pos p)); inversion E; reflexivity.
+    + unfold mon_sys in E. destruct a as [r|p].
+      * destruct (hand_all (m_hand m) (firstn (N.to_nat r) seqs)); inversion E; reflexivity.
+      * destruct (real_err (Z.pos p)); [destruct seqs|]; inversion E; reflexivity.
+    + destruct (find_owed id (m_owed m)) as [[sq ln]|]; [|discriminate].
+      destruct (cb_ok m sq status); inversion E; reflexivity.
+    + destruct (_ && _); inversion E; reflexivity.
+    + destruct (m_owed m) eqn:Eo; inversion E; subst; rewrite ?Eo; reflexivity.
+Qed.
+
+(* C10_queue_getters_exact, on traces *)
+Theorem accepted_getters tr m :
+  mon_run mon0 tr = Some m ->
+  forall pre post sz ct act, tr = pre ++ EGet sz ct act :: post ->
+  ct = Z.of_nat (length (owed_after [] pre)) /\ sz = owed_bytes (owed_after [] pre).
+Proof.
+  intros H pre post sz ct act E. subst tr. rewrite mon_run_app in H.
+  destruct (mon_run mon0 pre) as [m1|] eqn:E1; [|discriminate].
+  pose proof (mon_run_owed _ _ _ E1) as Ho. simpl in Ho, H. rewrite <- Ho.
+  destruct ((ct =? Z.of_nat (length (m_owed m1))) && (sz =? owed_bytes (m_owed m1))) eqn:Eg;
+    [|discriminate].
+  apply andb_prop in Eg. destruct Eg as (G1 & G2).
+  apply Z.eqb_eq in G1. apply Z.eqb_eq in G2. auto.
+Qed.
+
+(* ... and on states: in every state the model reaches between API calls and loop
+   iterations, the two counters are the number and bytes of the queued requests *)
+Theorem getters_state fx beh rbeh conn mm o r al ops :
+  let s := fst (run fx beh rbeh (init conn mm o r al) ops) in
+  sq_count s = Z.of_nat (length (cq s ++ wq s)) /\ sq_size s = sum_len (cq s ++ wq s).
+Proof.
+  destruct (run_ok fx beh rbeh ops _ _ (Inv_init conn mm o r al)) as (m & _ & I).
+  simpl. destruct I. unfold strips in *. rewrite map_length in i_count0. split; auto.
+  rewrite i_size0. clear. induction (cq _ ++ wq _) as [|x l IH]; simpl; [reflexivity|].
+  now rewrite IH.
 Qed.
